@@ -437,7 +437,7 @@ func refSelfPMT(ev *Ev) {
 
 func TestC11(t *testing.T) {
 	propTest(t, "C11", func(ev *Ev) {
-		maxExh := pick(10, 15)
+		maxExh := pick(10, 16)
 		ev.Rule(fmt.Sprintf("blocks of n minimal distinct transactions; exhaustive: all 2^n subsets for every n <= %d via the hash-set builder; "+
 			"n = 1..65 x structured subsets (empty, full, singletons, last, first+last, right edge of every level, alternating) "+
 			"through both the hash-set builder and the two filter-driven builders; rapid: n up to 4000 (600 for filters) with "+
@@ -507,7 +507,7 @@ func TestC11(t *testing.T) {
 				}
 			}
 		}
-		kC11.Run(t, ev, perShard(pick(1500, 150000)))
+		kC11.Run(t, ev, perShard(pick(1500, 600000)))
 		ev.requireClasses("C11:subset-empty", "C11:subset-full", "C11:subset-singleton", "C11:subset-proper",
 			"C11:mode=filter", "C11:mode=txnset", "C11:n-not-power-of-two")
 	})
